@@ -112,8 +112,57 @@ func famDiff(f *FamCtx) {
 			f.RunTreeCase(genInterruptedDeleteCase(f.Rand, RandCfg(f.Rand)), faultRunner, multiLevel)
 			continue
 		}
+		if i%10 == 4 {
+			// every tree persisted and read back, the diffs through ONE DiffCursor whose load number k
+			// fails once: the failed NextEntry is retried on the same cursor and the events must still
+			// be the difference, each differing key once
+			f.RunTreeCase(genRetriedDiffCase(f.Rand, RandCfg(f.Rand)), faultRunner, multiLevel)
+			continue
+		}
 		f.RunTreeCase(f.Gen(), exactRunner, multiLevel)
 	}
+}
+
+// genRetriedDiffCase: a genDiffCase history in which every tree is persisted and reloaded before
+// the diffs (so that a diff has nodes to load), and each diff runs through a DiffCursor with one
+// failing load, retried on the same cursor.
+func genRetriedDiffCase(r *rand.Rand, cfg Cfg) Case {
+	cfg = noCache(cfg)
+	c := genDiffCase(r, cfg)
+	nroot, nslot := 0, 1
+	cut := len(c.Ops)
+	for i, op := range c.Ops {
+		t := strings.Fields(op)
+		switch t[0] {
+		case "root":
+			nroot++
+		case "new", "clone", "load":
+			var d int
+			fmt.Sscan(t[len(t)-1], &d)
+			if d+1 > nslot {
+				nslot = d + 1
+			}
+		}
+		if strings.HasPrefix(t[0], "diff") && i < cut {
+			cut = i
+		}
+	}
+	ops := append([]string{}, c.Ops[:cut]...)
+	for s := 0; s < nslot; s++ {
+		ops = append(ops, fmt.Sprintf("root %d %d", s, nroot), fmt.Sprintf("load %d %d", nroot, s))
+		nroot++
+	}
+	for _, op := range c.Ops[cut:] {
+		t := strings.Fields(op)
+		if len(t) < 3 || t[1] == "-" {
+			ops = append(ops, op)
+			continue
+		}
+		for j := 0; j < 1+r.Intn(3); j++ {
+			ops = append(ops, fmt.Sprintf("fault load %d diffcr %s %s", r.Intn(14), t[1], t[2]))
+		}
+	}
+	return Case{cfg, ops}
 }
 
 // genCursorCase: sparse multi-level trees, cursors placed by Min/Max/Ceil and walked.
